@@ -160,6 +160,18 @@ def images(spec, log, final, tier):
     for kind, off, data in log:
         if kind == "w":
             bounds |= {off, off + len(data), off + len(data) - 1, off + 1}
+    # zip structure: every byte of the central directory and the end-of-central-directory record, and of every local file header
+    # (header fields - versions, flags, methods, sizes, offsets - are where a reader fails in unusual ways)
+    struct_offs = set()
+    eocd = final.rfind(b"PK\x05\x06")
+    if eocd >= 0:
+        cd_start = int.from_bytes(final[eocd + 16:eocd + 20], "little")
+        if 0 <= cd_start <= eocd:
+            struct_offs |= set(range(cd_start, n))
+    pos = final.find(b"PK\x03\x04")
+    while pos >= 0:
+        struct_offs |= set(range(pos, min(n, pos + 30)))
+        pos = final.find(b"PK\x03\x04", pos + 4)
     if quick or big:
         offs = set(range(0, n, 16 if not big else 64)) | set(range(max(0, n - 128), n)) | {b for b in bounds if 0 <= b < n}
     else:
@@ -169,8 +181,10 @@ def images(spec, log, final, tier):
     # (c) single-byte corruption
     if quick or big:
         coffs = set(range(0, n, 16 if not big else 97)) | set(range(max(0, n - 64), n)) | {b for b in bounds if 0 <= b < n}
+        if not (quick and spec.get("lite")) or spec["label"] == "wilson3":
+            coffs |= struct_offs
     else:
-        coffs = set(range(0, n, 2)) | set(range(max(0, n - 256), n))
+        coffs = set(range(0, n, 2)) | set(range(max(0, n - 256), n)) | struct_offs
     for o in sorted(coffs):
         for x in (0xFF, 0x01) if (quick or big) else (0xFF, 0x01, "zero"):
             b = bytearray(final)
@@ -243,20 +257,21 @@ def image_task(t, res):
         shutil.rmtree(d, ignore_errors=True)
 
 
-def foreign_family():
-    """a base configuration and variants differing from it in exactly one field"""
-    base = dict(label="A", gen="gen_dfs", kw={}, n=4, seed=42, grid=3, name="c11f")
+def foreign_family(n0=4):
+    """a base configuration and variants differing from it in exactly one field. n0 = 4: files in the full format; n0 = 100: files in
+    the minimal format (written at/above the serialisation threshold, their stored config carries the metadata-collection filter)"""
+    base = dict(label="A", gen="gen_dfs", kw={}, n=n0, seed=42, grid=3, name="c11f")
     V = {
         "base": base,
         "name": dict(base, name="c11g"),
         "grid_n": dict(base, grid=4),
-        "n_mazes": dict(base, n=6),
+        "n_mazes": dict(base, n=n0 + 2),
         "maze_ctor": dict(base, gen="gen_wilson"),
         "maze_ctor_kwargs": dict(base, kw=dict(do_forks=False)),
         "endpoint_kwargs": dict(base, endpoint_kwargs=dict(deadend_start=True)),
         "seed": dict(base, seed=43),
         "applied_filters": dict(base, filters=[("path_length", (3,), {})]),
-        "filters_count_change": dict(base, n=8, filters=[("truncate_count", (4,), {})]),
+        "filters_count_change": dict(base, n=n0 + 4, filters=[("truncate_count", (n0,), {})]),
         "seq_len_max": dict(base, seq_len_max=256),
     }
     return V
@@ -265,7 +280,8 @@ def foreign_family():
 def foreign_task(t, res):
     from maze_dataset import MazeDataset
 
-    V = foreign_family()
+    n0 = t.get("n0", 4)
+    V = foreign_family(n0)
     names = sorted(V)
     d = tempfile.mkdtemp(prefix="mzc11f.", dir=TMP_ROOT)
     try:
@@ -293,7 +309,7 @@ def foreign_task(t, res):
                     f.write(files[b][1])
                 da = {k for k in ("name", "grid", "n", "gen", "kw", "endpoint_kwargs", "seed", "filters", "seq_len_max") if V[a].get(k) != V[b].get(k)}
                 only_count = da <= {"n"}
-                rd = dict(kind="foreign", a=a, b=b)
+                rd = dict(kind="foreign", a=a, b=b, n0=n0)
                 try:
                     ds = MazeDataset.from_config(cfgA, local_base_path=work, do_download=False)
                 except Exception as e:
@@ -308,7 +324,7 @@ def foreign_task(t, res):
                 if only_count and got == fps[b]:
                     res.nontrivial(("foreign", a, b))
                     continue  # the maze count is exempt from the comparison: B's stored mazes may be served
-                res.fail(f"C11|foreign|{'+'.join(sorted(da))}|other_data_served", f"request for config '{a}' was answered from a cache file of config '{b}' "
+                res.fail(f"C11|foreign|{'+'.join(sorted(da))}|other_data_served|{'full' if n0 < 100 else 'minimal'}_format_file", f"request for config '{a}' (family n0={n0}) was answered from a cache file of config '{b}' "
                          f"(differs in {sorted(da)}): returned {len(ds)} mazes that are not the requested dataset", rd)
     finally:
         shutil.rmtree(d, ignore_errors=True)
@@ -513,7 +529,8 @@ def run(ctx):
                 ns *= 2
             for sl in range(ns):
                 tasks.append(dict(spec=s, rec=recpath, slice=sl, nslices=ns, tier=ctx.tier))
-        tasks.append(dict(foreign=True))
+        tasks.append(dict(foreign=True, n0=4))
+        tasks.append(dict(foreign=True, n0=100))
         tasks.append(dict(history=True, depth=4 if ctx.quick else 6))
         ctx.pmap("mzcheck.checks.c11", "dispatch", tasks)
     finally:
@@ -521,7 +538,7 @@ def run(ctx):
     c = ctx.res.counters
     ctx.coverage.update(configs=[s["label"] for s in specs], recorded={k: dict(size=len(v[1]), write_ops=len(v[0])) for k, v in ctx_rec.items()},
                         images_by_family={k[7:]: v for k, v in c.items() if k.startswith("images_")},
-                        foreign_pairs=len(foreign_family()) * (len(foreign_family()) - 1),
+                        foreign_pairs=2 * len(foreign_family()) * (len(foreign_family()) - 1), foreign_families=["n0=4 (full format files)", "n0=100 (minimal format files)"],
                         history_layer=dict(states=c.get("hist_states", 0), transitions=c.get("hist_transitions", 0), max_depth=c.get("hist_max_depth", 0),
                                            requests_judged_events=[list(e) for e in hist_events()],
                                            mismatch_raised=c.get("hist_mismatch_raised", 0)))
@@ -548,7 +565,7 @@ def dispatch(t, res):
 def replay(d, res):
     if d["kind"] == "foreign":
         sub = type(res)()
-        foreign_task({}, sub)
+        foreign_task(dict(n0=d.get("n0", 4)), sub)
         for f in sub.fails:
             if f["replay"].get("a") == d["a"] and f["replay"].get("b") == d["b"]:
                 res.fail(f["key"], f["what"], f["replay"])
